@@ -628,6 +628,36 @@ func annoEndRule(R string) RuleFunc {
 		if k < 3 {
 			c.Bad(R, "states:mode", "-", "states ending an inline annotation line", core.F("undecided: only %d paths install the next-line guard", k))
 		}
+		// an inline annotation never survives a line end: in every state of an inline annotation (the states
+		// the pinned tree calls stateInlineAnnotation...) a line end either closes the annotation - it
+		// emits InlineAnnotationEnd or installs the next-line guard - or is an error. A state that only emits
+		// NewLine and carries on makes `//⏎` swallow the following line as annotation text, as `/*` does
+		j := 0
+		for _, name := range m.names {
+			pinned := name
+			if f := m.states[name]; f != nil {
+				pinned = pinnedBare(f)
+			}
+			if !strings.HasPrefix(pinned, "stateInlineAnnotation") || pinned == "stateInlineAnnotationStart" {
+				continue
+			}
+			for _, p := range m.rows[name]['\n'].paths {
+				if p.kind != "return" {
+					continue
+				}
+				j++
+				closes := strings.Contains(p.next, "$")
+				for _, f := range p.finds {
+					if f == "InlineAnnotationEnd" {
+						closes = true
+					}
+				}
+				c.Check(closes, R, core.F("%s:LF:closes#%d", pinned, j), c.P.Pos(m.states[name].Pos()), "state "+pinned+": a line end closes the inline annotation", "the line end is passed over inside an inline annotation ("+strings.Join(p.finds, ",")+" -> "+p.next+"): the next line is read as annotation text, so what follows the schema moves the boundary Len() reports")
+			}
+		}
+		if j < 3 {
+			c.Bad(R, "states:closes", "-", "inline-annotation states", core.F("undecided: only %d line-end paths found in states of an inline annotation", j))
+		}
 	}
 }
 
